@@ -578,3 +578,9 @@ def units_c03(tier):
 def units_c14(tier):
     """the walk pipeline keeps its state in locals: frame obligations and request-id obligations under C14"""
     return walk_units("C14", 1, None) + walk_units("C14", 1, 2) + walk_units("C14", 2, None)
+
+
+def units_c16(tier):
+    """table() is walk(entry), bulktable() is bulkwalk([table]): the single-root walks both table variants rest on,
+    verified under C16 as well (so that ./check C16 notices a broken stream, not only a broken tablify)"""
+    return walk_units("C16", 1, None) + walk_units("C16", 1, 2)
